@@ -12,8 +12,8 @@ message) to the implementation.
 Streams: 0..5 messages of N x 031031 made by the implementation's Encoder
 (editions 2-4, section 2 present or not, data category 0..5, never 11), separators
 without b'BUFR' (incl. partial signatures), optional trailing noise; optionally
-damaged messages: stop signature overwritten (the damage the theorems cover:
-the predicate is evaluated), section 1/4 length -k/+k (tie only; a changed section-3
+damaged messages: stop signature overwritten, section 4 length decreased below its
+content ('len4dec') (the damages the theorems cover: the predicate is evaluated), section 1/4 length -k/+k (tie only; a changed section-3
 length makes the unary-number extracted decoder crawl over a garbage 24-bit length and is
 left to the observation-driven C12 cases).
 Modes: info_only x continue_on_error x {no filter, '${%data_category} == k'}.
@@ -64,11 +64,17 @@ def separator(rng):
 def damage(rng, d, kind):
     b = bytearray(d['bytes'])
     if kind == 'stop':
-        x4 = rng.choice([b'7778', b'\x00\x00\x00\x00', b'777', b'BUFR', bytes(rng.randrange(256) for _ in range(4))])
+        x4 = rng.choice([b'7778', b'\x00\x00\x00\x00', b'777', b'BUF7', bytes(rng.randrange(256) for _ in range(4))])
         x4 = (x4 + b'\x00\x00\x00\x00')[:4]
         if x4 == b'7777':
             x4 = b'7787'
         b[-4:] = x4
+        return bytes(b)
+    if kind == 'len4dec':
+        # the damage of C12_damaged_section4_length: 4 <= v <= sl and 8 v < 32 + data bits
+        off = d['offs'][4]
+        hi = min(d['lens'][4], (32 + d['n'] - 1) // 8)
+        b[off:off + 3] = rng.randrange(4, hi + 1).to_bytes(3, 'big')
         return bytes(b)
     sec = {'len1': 1, 'len4': 4}[kind]
     off = d['offs'][sec]
@@ -87,14 +93,16 @@ def make_cases(rng, n_streams, with_damage):
         for d in msgs:
             kind = None
             if with_damage and rng.random() < 0.45:
-                kind = rng.choice(['stop', 'stop', 'stop', 'len4', 'len4', 'len1'])
+                kind = rng.choice(['stop', 'stop', 'stop', 'len4dec', 'len4dec', 'len4', 'len1'])
+                if kind == 'len4dec' and d['n'] == 0:
+                    kind = 'stop'             # an empty data section cannot be overrun
             items.append((d, kind, damage(rng, d, kind) if kind else d['bytes'], separator(rng)))
         lead = separator(rng)
         stream = lead + b''.join(b + sp for (_, _, b, sp) in items)
         if rng.random() < 0.3:
             stream += bytes(rng.choice(b'BUF7\x00x') for _ in range(rng.randrange(1, 6))).replace(b'BUFR', b'BUF_')
         kinds = sorted(set(kd for (_, kd, _, _) in items if kd))
-        only_stop = all(kd in (None, 'stop') for (_, kd, _, _) in items)
+        only_stop = all(kd in (None, 'stop', 'len4dec') for (_, kd, _, _) in items)
         modes = [(False, False, None), (True, False, None), (False, True, None)]
         fcat = rng.randrange(0, 6)
         modes.append((rng.random() < 0.5, rng.random() < 0.5, fcat))
@@ -176,9 +184,9 @@ def run(ctx, damaged):
     rng = random.Random(ctx.rng.randrange(1 << 30))
     from props import C11 as S
     with S.quiet():
-        cases = make_cases(rng, ctx.n(36 if damaged else 50, 500), damaged)
+        cases = make_cases(rng, ctx.n(80, 600), damaged)
     run_cases(ctx, cases, 'C12-e2e-stream' if damaged else 'stream-e2e')
-    need = ['e2e:mode:full', 'e2e:mode:info', 'e2e:predicate-evaluated', '+filter'] + (['e2e:damage:stop'] if damaged else [])
+    need = ['e2e:mode:full', 'e2e:mode:info', 'e2e:predicate-evaluated', '+filter'] + (['e2e:damage:stop', 'e2e:damage:len4dec'] if damaged else [])
     for k in need:
         if not any(x.startswith('e2e:') and k in x and v > 0 for x, v in ctx.dist.items()):
             raise RuntimeError('e2e generator never produced %r: harness defect' % k)
